@@ -192,6 +192,102 @@ def _resolve(fc, e, at, depth=0):
     return norm_src(R().visit(_copy.deepcopy(e)))
 
 
+def _inner_space(gen, h):
+    """(layer source, {name: replacement source in terms of the position variable _k}) of the inner generator of a builder
+    that visits every cell of one layer in order: `for l in range(len(X))`, `for c in X`, `for (l, c) in enumerate(X)`."""
+    it, tg = gen.iter, gen.target
+    if isinstance(tg, ast.Name) and isinstance(it, ast.Call) and norm_src(it.func) == "range" and len(it.args) == 1 and not it.keywords and \
+            isinstance(it.args[0], ast.Call) and norm_src(it.args[0].func) == "len" and len(it.args[0].args) == 1:
+        return norm_src(it.args[0].args[0]), {tg.id: "_k"}
+    if isinstance(tg, ast.Tuple) and len(tg.elts) == 2 and all(isinstance(t, ast.Name) for t in tg.elts) and isinstance(it, ast.Call) and \
+            norm_src(it.func) == "enumerate" and len(it.args) == 1 and not it.keywords:
+        x = norm_src(it.args[0])
+        return x, {tg.elts[0].id: "_k", tg.elts[1].id: "%s[_k]" % x}
+    if isinstance(tg, ast.Name) and isinstance(it, (ast.Subscript, ast.Name, ast.Attribute)):
+        x = norm_src(it)
+        return x, {tg.id: "%s[_k]" % x}
+    return None, None
+
+
+def _subst(e, mp):
+    class S(ast.NodeTransformer):
+        def visit_Name(self, n):
+            if isinstance(n.ctx, ast.Load) and n.id in mp:
+                return ast.parse(mp[n.id], mode="eval").body
+            return n
+    import copy as _copy
+    return S().visit(_copy.deepcopy(e))
+
+
+def fuse_parallel_builders(ctx):
+    """The statement of R13-WEIGHT does not depend on whether the table of records and the weights are built in ONE loop nest
+    or as two parallel sequences over the SAME iteration space (two nested comprehensions, layers ranked by a loop of their own
+    before): position k of both belongs to the k-th (depth, cell) pair of that space either way, and rank() touches only the
+    cells of the layer it is given (R13-RANK), so ranking all layers first and ranking each layer right before its weights are
+    read give every cell the same rank.  When pull is written in the parallel form, the equivalent single nest is what the
+    rules read:
+        for h in R: self.rank(L(h))                       for h in R:
+        T = [rec for h in R for x in S1(h)]          ==       self.rank(L(h))
+        self.prob = [w for h in R for y in S2(h)]             for _k in range(len(X(h))): T.append(rec'); self.prob.append(w')
+    required: the three outer ranges are textually the same expression over names nothing in between assigns, both inner
+    generators visit every cell of the same layer expression X(h) in order (no filters), and the three statements are adjacent
+    up to each other.  Anything else is left as written."""
+    model = ctx.model
+    cinfo = model.cls("VROOM")
+    pull = cinfo.methods.get("pull")
+    if pull is None:
+        return
+    body = pull.body
+    comps = {}
+    for i, s in enumerate(body):
+        if isinstance(s, ast.Assign) and len(s.targets) == 1 and isinstance(s.value, ast.ListComp) and len(s.value.generators) == 2 and \
+                not any(g.ifs or g.is_async for g in s.value.generators) and isinstance(s.value.generators[0].target, ast.Name):
+            comps[i] = s
+    pi = [i for i, s in comps.items() if is_self_attr(s.targets[0], "prob")]
+    ti = [i for i, s in comps.items() if isinstance(s.targets[0], ast.Name)]
+    if len(pi) != 1 or len(ti) != 1:
+        return
+    pi, ti = pi[0], ti[0]
+    R = norm_src(comps[pi].value.generators[0].iter)
+    if norm_src(comps[ti].value.generators[0].iter) != R:
+        return
+    first = min(pi, ti)
+    ri = [i for i, s in enumerate(body[:first]) if isinstance(s, ast.For) and not s.orelse and isinstance(s.target, ast.Name) and norm_src(s.iter) == R and
+          len(s.body) == 1 and isinstance(s.body[0], ast.Expr) and isinstance(s.body[0].value, ast.Call) and norm_src(s.body[0].value.func) == "self.rank"]
+    if len(ri) != 1:
+        return
+    ri = ri[0]
+    if sorted([ri, pi, ti]) != list(range(ri, ri + 3)):
+        return
+    h = body[ri].target.id
+    out = {}
+    for i in (ti, pi):
+        g0, g1 = comps[i].value.generators
+        x, mp = _inner_space(g1, g0.target.id)
+        if x is None:
+            return
+        ren = {g0.target.id: h}
+        x = norm_src(_subst(ast.parse(x, mode="eval").body, ren))
+        mp = {k: norm_src(_subst(ast.parse(v, mode="eval").body, ren)) for k, v in mp.items()}
+        mp.update({g0.target.id: h} if g0.target.id != h else {})
+        out[i] = (x, norm_src(_subst(comps[i].value.elt, mp)))
+    if out[ti][0] != out[pi][0]:
+        return
+    tname = comps[ti].targets[0].id
+    X = out[ti][0]
+    src = ("%s = []\nself.prob = []\nfor %s in %s:\n    %s\n    for _k in range(len(%s)):\n        %s.append(%s)\n        self.prob.append(%s)\n"
+           % (tname, h, R, norm_src(body[ri].body[0]), X, tname, out[ti][1], out[pi][1]))
+    new = ast.parse(src).body
+    for n in new:
+        for x in ast.walk(n):
+            ast.copy_location(x, body[ri])
+    body[ri:ri + 3] = new
+    for n in ast.walk(pull):
+        for ch in ast.iter_child_nodes(n):
+            model.parent[id(ch)] = n
+    ctx.note("VROOM.pull: parallel builders of the record table and the weights read as one loop nest")
+
+
 def check_weights(ctx):
     """R13-WEIGHT, stated as what must hold (not how it is written): at every pull the weight list and a parallel table of
     records are rebuilt; for every depth h = 1..floor(log2 n) the layer is ranked first and then EVERY cell of the layer
@@ -520,6 +616,7 @@ def drawn_cell_expr(fc, e, at):
 def run(ctx):
     model = ctx.model
     f13 = model.cls("VROOM").file
+    fuse_parallel_builders(ctx)
     ctx.attempt("R13-FORM", f13, "VROOM.__init__", "schedule constants", check_init, ctx)
     ctx.attempt("R13-RANK", f13, "VROOM.rank", "ranking", check_rank, ctx)
     ctx.attempt("R13-WEIGHT", f13, "VROOM.pull", "weights", check_weights, ctx)
